@@ -56,6 +56,10 @@ type Store struct {
 	Dir      string
 	Opts     StoreOpts
 	FM       *fracmanager.FracManager
+	// Cfg is the configuration the fraction manager reads at every maintenance pass; a check may
+	// lower Cfg.TotalSize between passes (no maintenance loop running) as an operator's restart
+	// with another limit would, without losing the in-process fraction objects
+	Cfg *fracmanager.Config
 	Searcher *fracmanager.Searcher
 	Fetcher  *fracmanager.Fetcher
 	stopped  bool
@@ -113,7 +117,8 @@ func OpenStore(dir string, o StoreOpts) (*Store, error) {
 	if conf.IndexWorkers != iw { // a package variable of seq-db: written only when a case asks for it
 		conf.IndexWorkers = iw
 	}
-	fm := fracmanager.NewFracManager(o.config(dir))
+	cfg := o.config(dir)
+	fm := fracmanager.NewFracManager(cfg)
 	if err := fm.Load(context.Background()); err != nil {
 		return nil, fmt.Errorf("load: %w", err)
 	}
@@ -128,7 +133,7 @@ func OpenStore(dir string, o StoreOpts) (*Store, error) {
 	}
 	fpi := o.FracsPerIter
 	return &Store{
-		Dir: dir, Opts: o, FM: fm,
+		Dir: dir, Opts: o, FM: fm, Cfg: cfg,
 		Searcher: fracmanager.NewSearcher(w, fracmanager.SearcherCfg{FractionsPerIteration: fpi}),
 		Fetcher:  fracmanager.NewFetcher(w),
 	}, nil
